@@ -52,6 +52,11 @@ CHECKS = {
         technique="runtime reference-model monitor: textbook affine maps in exact arithmetic vs the real evaluator, per spelling; chains fed by exact replies",
         text="All 36 ordered scale pairs x all 26x26 spelling pairs systematically, plus seeded random (x, pair, spelling) triples with x from absolute zero, 10^+-30, 60-digit decimals and random rationals: operator value, conversion value, A->A identity and chains of 2..6 conversions must agree exactly with the textbook formulas; dimensioned operands, compound targets and non-temperature sources must be refused.",
         note="The textbook constants are the oracle's; holds for the x values generated, not for all rationals."),
+    "C11": dict(
+        category="exploration", design_ref="DESIGN.md §2 C11",
+        technique="runtime round-trip monitor: trees produced by the real parser are printed by the real Display / ExprReply / ExprString-serde paths, re-parsed by the real parser and compared structurally",
+        text="Bounded-exhaustive: every node kind over every leaf kind, every (parent, child kinds) combination and every (grandparent, parent, child) chain in every operand position, plus seeded random deeper trees and every bundled definition and substance property through the DefEntry JSON round trip; the re-parsed tree must be identical and no tokens may be left over.",
+        note="ExprReply token lists are joined with single spaces; literals that print inexactly, dates and error nodes are excluded as the statement says; depth beyond 3 is sampled, not enumerated."),
     "C12": dict(
         category="exploration", design_ref="DESIGN.md §2 C12",
         technique="runtime history-invariant monitor: the same definition multiset loaded by the real loader in many orders and file splits; canonical registry dumps compared byte for byte",
